@@ -29,6 +29,7 @@ pub mod progs;
 pub mod p15_construct;
 pub mod xen_emul;
 pub mod p17_guards;
+pub mod p18_zero;
 pub mod p19_address;
 pub mod p20_endian;
 
@@ -53,6 +54,7 @@ pub fn properties() -> Vec<Property> {
         p15_construct::property(),
         p05_p16_dirty::property_c16(),
         p17_guards::property(),
+        p18_zero::property(),
         p19_address::property(),
         p20_endian::property(),
     ]
